@@ -185,6 +185,48 @@ _c = Message.as_bytes.__code__
 AS_BYTES_FIRST = min(l for (_a, _b, l) in _c.co_lines() if l is not None and l > _c.co_firstlineno)
 
 
+def closing_partial(run):
+    """Output that is pending when a connection is told to close (the 3010 answer to an unknown peer's CER, the DPA): every
+    pattern of partial writes still hands the whole encoding to the socket before the socket is closed."""
+    for label, host, sends in (("CEA 3010 to an unknown peer", "stranger.example.org", [16, 16, 1, ("err", errno.EAGAIN), 7, "all"]),
+                               ("CEA 3010 to an unknown peer", "stranger.example.org", [1] * 40 + ["all"]),
+                               ("CEA 3010 to an unknown peer", "stranger.example.org", ["all"])):
+        sim = Sim(seed=1, t0=NS.T0)
+        try:
+            sim.script_random([77, 12345])
+            node = sim.node_mod.Node("srv.example.net", "example.net", ip_addresses=["10.0.0.1"], tcp_port=3868)
+            app = sim.app_mod.SimpleThreadingApplication(4, is_auth_application=True, request_handler=lambda a, m: None)
+            node.add_application(app, [node.add_peer("aaa://cli0.example.net", "example.net")])
+            node.start()
+            sim.run()
+            sim.script_random([1000])
+            r = sim.connect_in()
+            sim.run()
+            r.script_send([tuple(x) if isinstance(x, list) else x for x in sends])
+            r.feed(NS.build_message(dict(kind="cer", host=host, hbh=1, e2e=1)))
+            sim.run()
+            for _ in range(8):
+                if r.closed_by_node:
+                    break
+                sim.advance(1)
+            sent = r.take_sent()
+            run.count(1, [("closing-partial", label, len(sends))])
+            whole = len(sent) >= 20 and int.from_bytes(sent[1:4], "big") == len(sent)
+            rc = None
+            if whole:
+                try:
+                    rc = getattr(Message.from_bytes(sent), "result_code", None)
+                except Exception:   # noqa
+                    whole = False
+            if not whole or rc != 3010 or not r.closed_by_node or sim.thread_deaths:
+                run.violation("stream", {"scenario": label, "sends": [str(x) for x in sends[:8]]},
+                              {"bytes_handed_to_the_socket": len(sent), "one_whole_frame": whole, "result_code": rc, "closed": r.closed_by_node},
+                              "the whole encoding of the pending answer, then the close",
+                              what="output pending on a closing connection reaches the socket truncated (or not at all)")
+        finally:
+            sim.shutdown()
+
+
 def run_schedule(spec, prefix, record):
     """run the scenario following `prefix` (thread names at decision points), then run-to-completion without switching.
     record: list receiving (runnable, chosen, preemptions so far)"""
@@ -354,6 +396,7 @@ def check(run):
         random_schedule(run, gen_spec(rng, big=True), rng, rng.choice([0.05, 0.2, 0.5]))
         total += 1
     run.extra["schedules_explored"] = total
+    closing_partial(run)
     if (run.broken or run.mismatches) and not run.violations and not thorough:
         run.notes.append("obligation broken: escalating the schedule search")
         for spec in fixed:
